@@ -6,8 +6,9 @@
     - [opt_step_unreachable]: after [extract_options] no optional is left, so
       [eliminate_options] never fires;
     - [canon_preserves_lang]: the composition, for both grammar types;
-    - [canon_fresh] / [canon_fresh_refuted]: helper names are new iff every name of the table is
-      visible to [variable_names];
+    - [canon_fresh]: the repaired code gives helpers new names (names at any nesting depth are
+      visible to [variable_names]); [canon_old_fresh] / [canon_fresh_refuted]: at the pinned
+      commit only names visible at top level were avoided;
     - [canon_measure_decreases], [canon_terminates]: [canon_fuel] suffices. *)
 From Coq Require Import String Ascii List NArith Arith Bool Lia.
 From Parol Require Import Grammar.Cfg Grammar.Member Grammar.Ebnf Transform.Names Transform.Canon.
@@ -526,15 +527,19 @@ Proof.
     cbn [gnoopt forallb snd]. rewrite andb_true_r. exact Hmid.
 Qed.
 
+Section Deep.
+  Variable deep : bool.
+
 (** [eliminate_options] never fires on an optional-free grammar. *)
-Theorem opt_step_unreachable st : gnoopt (st_ps st) = true -> opt_step st = Ok None.
+Theorem opt_step_unreachable st : gnoopt (st_ps st) = true -> opt_step deep st = Ok None.
 Proof. intros H. unfold opt_step. rewrite (gnoopt_find_opt _ H). reflexivity. Qed.
 
 (** ** Steps of the model are rewrites *)
+
 Inductive cstep (is_lr : bool) (st st' : cstate) : Prop :=
 | cs_new f name excl :
     rewrite is_lr (next_nt st) (st_ps st) (st_ps st') (Some f) ->
-    variable_names st = Ok excl -> ~ In name excl ->
+    variable_names_gen deep st = Ok excl -> ~ In name excl ->
     st_names st' = st_names st ++ [name] -> cstep is_lr st st'
 | cs_same :
     rewrite is_lr (next_nt st) (st_ps st) (st_ps st') None ->
@@ -550,11 +555,11 @@ Proof. induction 1 as [|st st1 st2 Hs _ IH]; intros H; [exact H|]. econstructor;
 Lemma creach_one is_lr a b : cstep is_lr a b -> creach is_lr a b.
 Proof. intros H. econstructor; [exact H|constructor]. Qed.
 
-Lemma extract_step_some is_lr st st' : extract_step st = Ok (Some st') -> cstep is_lr st st'.
+Lemma extract_step_some is_lr st st' : extract_step deep st = Ok (Some st') -> cstep is_lr st st'.
 Proof.
   unfold extract_step. intros H.
   destruct (ex_prods (next_nt st) (st_ps st)) as [[[[[pre a] b'] o] post]|] eqn:Ex; [|discriminate].
-  destruct (variable_names st) as [excl|e] eqn:Ev; [|discriminate]. cbn [bind] in H.
+  destruct (variable_names_gen deep st) as [excl|e] eqn:Ev; [|discriminate]. cbn [bind] in H.
   destruct (name_of (st_names st) a) as [nt|e]; [|discriminate]. cbn [bind] in H.
   inversion H; subst st'. clear H.
   eapply cs_new with (excl := excl); cbn [st_ps st_names].
@@ -564,20 +569,20 @@ Proof.
   - reflexivity.
 Qed.
 
-Lemma extract_step_none st : extract_step st = Ok None -> gnoopt (st_ps st) = true.
+Lemma extract_step_none st : extract_step deep st = Ok None -> gnoopt (st_ps st) = true.
 Proof.
   unfold extract_step. intros H.
   destruct (ex_prods (next_nt st) (st_ps st)) as [[[[[pre a] b'] o] post]|] eqn:Ex.
-  - destruct (variable_names st) as [excl|e]; [|discriminate]. cbn [bind] in H.
+  - destruct (variable_names_gen deep st) as [excl|e]; [|discriminate]. cbn [bind] in H.
     destruct (name_of (st_names st) a) as [nt|e]; discriminate.
   - apply (ex_prods_none (next_nt st)). exact Ex.
 Qed.
 
-Lemma rep_step_some is_lr st st' : rep_step is_lr st = Ok (Some st') -> cstep is_lr st st'.
+Lemma rep_step_some is_lr st st' : rep_step deep is_lr st = Ok (Some st') -> cstep is_lr st st'.
 Proof.
   unfold rep_step. intros H.
   destruct (find_prods is_rep (st_ps st)) as [l|] eqn:Ef; [|discriminate].
-  destruct (variable_names st) as [excl|e] eqn:Ev; [|discriminate]. cbn [bind] in H.
+  destruct (variable_names_gen deep st) as [excl|e] eqn:Ev; [|discriminate]. cbn [bind] in H.
   destruct (name_of (st_names st) (l_lhs l)) as [nt|e]; [|discriminate]. cbn [bind] in H.
   inversion H; subst st'. clear H.
   eapply cs_new with (excl := excl); cbn [st_ps st_names].
@@ -587,12 +592,12 @@ Proof.
   - reflexivity.
 Qed.
 
-Lemma grp_step_some is_lr st st' : grp_step st = Ok (Some st') -> cstep is_lr st st'.
+Lemma grp_step_some is_lr st st' : grp_step deep st = Ok (Some st') -> cstep is_lr st st'.
 Proof.
   unfold grp_step. intros H.
   destruct (find_prods is_grp (st_ps st)) as [l|] eqn:Ef; [|discriminate].
   destruct (fbody (l_f l)) as [|alt [|alt2 gb]] eqn:Eb.
-  - destruct (variable_names st) as [excl|e] eqn:Ev; [|discriminate]. cbn [bind] in H.
+  - destruct (variable_names_gen deep st) as [excl|e] eqn:Ev; [|discriminate]. cbn [bind] in H.
     destruct (name_of (st_names st) (l_lhs l)) as [nt|e]; [|discriminate]. cbn [bind] in H.
     inversion H; subst st'. clear H. rewrite <- Eb.
     eapply cs_new with (excl := excl); cbn [st_ps st_names].
@@ -602,7 +607,7 @@ Proof.
     + reflexivity.
   - inversion H; subst st'. apply cs_same; cbn [st_ps st_names]; [|reflexivity].
     apply rw_grp1; assumption.
-  - destruct (variable_names st) as [excl|e] eqn:Ev; [|discriminate]. cbn [bind] in H.
+  - destruct (variable_names_gen deep st) as [excl|e] eqn:Ev; [|discriminate]. cbn [bind] in H.
     destruct (name_of (st_names st) (l_lhs l)) as [nt|e]; [|discriminate]. cbn [bind] in H.
     inversion H; subst st'. clear H. rewrite <- Eb.
     eapply cs_new with (excl := excl); cbn [st_ps st_names].
@@ -613,11 +618,11 @@ Proof.
 Qed.
 
 (** ** The loops compose rewrites *)
-Lemma extract_loop_reach is_lr fuel : forall st st', extract_loop fuel st = Ok st' ->
+Lemma extract_loop_reach is_lr fuel : forall st st', extract_loop deep fuel st = Ok st' ->
   creach is_lr st st' /\ gnoopt (st_ps st') = true.
 Proof.
   induction fuel as [|k IH]; intros st st' H; cbn [extract_loop] in H;
-    destruct (extract_step st) as [[st1|]|e] eqn:Es; cbn [bind] in H; try discriminate.
+    destruct (extract_step deep st) as [[st1|]|e] eqn:Es; cbn [bind] in H; try discriminate.
   - inversion H; subst st'. split; [constructor|exact (extract_step_none _ Es)].
   - destruct (IH _ _ H) as [Hr Hn]. split; [|exact Hn].
     econstructor; [exact (extract_step_some is_lr _ _ Es)|exact Hr].
@@ -634,27 +639,27 @@ Proof.
   - inversion H; subst. constructor.
 Qed.
 
-Lemma rep_loop_reach is_lr fuel : forall st m st' m', rep_loop fuel is_lr st m = Ok (st', m') ->
+Lemma rep_loop_reach is_lr fuel : forall st m st' m', rep_loop deep fuel is_lr st m = Ok (st', m') ->
   creach is_lr st st'.
 Proof.
   induction fuel as [|k IH]; intros st m st' m' H; cbn [rep_loop] in H;
-    destruct (rep_step is_lr st) as [[st1|]|e] eqn:Es; cbn [bind] in H; try discriminate.
+    destruct (rep_step deep is_lr st) as [[st1|]|e] eqn:Es; cbn [bind] in H; try discriminate.
   - inversion H; subst. constructor.
   - econstructor; [exact (rep_step_some _ _ _ Es)|exact (IH _ _ _ _ H)].
   - inversion H; subst. constructor.
 Qed.
 
-Lemma grp_loop_reach is_lr fuel : forall st m st' m', grp_loop fuel st m = Ok (st', m') ->
+Lemma grp_loop_reach is_lr fuel : forall st m st' m', grp_loop deep fuel st m = Ok (st', m') ->
   creach is_lr st st'.
 Proof.
   induction fuel as [|k IH]; intros st m st' m' H; cbn [grp_loop] in H;
-    destruct (grp_step st) as [[st1|]|e] eqn:Es; cbn [bind] in H; try discriminate.
+    destruct (grp_step deep st) as [[st1|]|e] eqn:Es; cbn [bind] in H; try discriminate.
   - inversion H; subst. constructor.
   - econstructor; [exact (grp_step_some is_lr _ _ Es)|exact (IH _ _ _ _ H)].
   - inversion H; subst. constructor.
 Qed.
 
-Lemma opt_loop_id fuel st m : gnoopt (st_ps st) = true -> opt_loop fuel st m = Ok (st, m).
+Lemma opt_loop_id fuel st m : gnoopt (st_ps st) = true -> opt_loop deep fuel st m = Ok (st, m).
 Proof.
   intros Hn. destruct fuel; cbn [opt_loop]; rewrite (opt_step_unreachable st Hn); reflexivity.
 Qed.
@@ -666,11 +671,11 @@ Lemma creach_noopt is_lr st st' : creach is_lr st st' -> gnoopt (st_ps st) = tru
 Proof. induction 1 as [|st st1 st2 Hs _ IH]; intros H; [exact H|]. apply IH. exact (cstep_noopt _ _ _ Hs H). Qed.
 
 Lemma trans_fn_reach is_lr fuel st st' m : gnoopt (st_ps st) = true ->
-  trans_fn fuel is_lr st = Ok (st', m) -> creach is_lr st st'.
+  trans_fn deep fuel is_lr st = Ok (st', m) -> creach is_lr st st'.
 Proof.
   intros Hn H. unfold trans_fn in H.
   destruct (sep_loop fuel (st_ps st) false) as [[ps1 m1]|e] eqn:E1; [|discriminate]. cbn [bind] in H.
-  destruct (rep_loop fuel is_lr (mkSt ps1 (st_names st)) m1) as [[st2 m2]|e] eqn:E2; [|discriminate].
+  destruct (rep_loop deep fuel is_lr (mkSt ps1 (st_names st)) m1) as [[st2 m2]|e] eqn:E2; [|discriminate].
   cbn [bind] in H.
   pose proof (sep_loop_reach is_lr (st_names st) _ _ _ _ _ E1) as R1.
   assert (Est : mkSt (st_ps st) (st_names st) = st) by (destruct st; reflexivity).
@@ -683,10 +688,10 @@ Proof.
 Qed.
 
 Lemma main_loop_reach is_lr fuel n : forall st st', gnoopt (st_ps st) = true ->
-  main_loop fuel n is_lr st = Ok st' -> creach is_lr st st'.
+  main_loop deep fuel n is_lr st = Ok st' -> creach is_lr st st'.
 Proof.
   induction n as [|k IH]; intros st st' Hn H; cbn [main_loop] in H; [discriminate|].
-  destruct (trans_fn fuel is_lr st) as [[st1 m]|e] eqn:Et; [|discriminate]. cbn [bind] in H.
+  destruct (trans_fn deep fuel is_lr st) as [[st1 m]|e] eqn:Et; [|discriminate]. cbn [bind] in H.
   pose proof (trans_fn_reach _ _ _ _ _ Hn Et) as R. destruct m.
   - exact (creach_trans _ _ _ _ R (IH _ _ (creach_noopt _ _ _ R Hn) H)).
   - inversion H; subst. exact R.
@@ -740,7 +745,7 @@ Qed.
 
 (** After [extract_options] no optional is left anywhere (so [eliminate_options] is dead code). *)
 Theorem no_optional_after_extract fuel st st' :
-  extract_loop fuel st = Ok st' -> gnoopt (st_ps st') = true.
+  extract_loop deep fuel st = Ok st' -> gnoopt (st_ps st') = true.
 Proof. intros H. exact (proj2 (extract_loop_reach false fuel st st' H)). Qed.
 
 (** [is_bnf ps]: every production has exactly one alternative, made of terminals and
@@ -772,14 +777,14 @@ Definition names_cover (G : egrammar) (names : list string) : Prop :=
   gbound (N.of_nat (length names)) (eprods G) = true /\
   (estart G < N.of_nat (length names))%N.
 
-Lemma canon_reach fuel is_lr G names B names' :
-  canon fuel is_lr G names = Ok (B, names') ->
+Lemma canon_gen_reach fuel is_lr G names B names' :
+  canon_gen deep fuel is_lr G names = Ok (B, names') ->
   exists st2, creach is_lr (mkSt (eprods G) names) st2 /\ gnoopt (st_ps st2) = true /\
     finalize (st_ps st2) = Ok (prods B) /\ start B = estart G /\ names' = st_names st2.
 Proof.
-  unfold canon. intros H.
-  destruct (extract_loop fuel (mkSt (eprods G) names)) as [st1|e] eqn:E1; [|discriminate]. cbn [bind] in H.
-  destruct (main_loop fuel (S fuel) is_lr st1) as [st2|e] eqn:E2; [|discriminate]. cbn [bind] in H.
+  unfold canon_gen. intros H.
+  destruct (extract_loop deep fuel (mkSt (eprods G) names)) as [st1|e] eqn:E1; [|discriminate]. cbn [bind] in H.
+  destruct (main_loop deep fuel (S fuel) is_lr st1) as [st2|e] eqn:E2; [|discriminate]. cbn [bind] in H.
   destruct (finalize (st_ps st2)) as [l|e] eqn:E3; [|discriminate]. cbn [bind] in H.
   inversion H; subst B names'. clear H.
   destruct (extract_loop_reach is_lr _ _ _ E1) as [R1 Hn1].
@@ -793,13 +798,13 @@ Qed.
 (** The result is a plain [cfg] (BNF by construction of the type) with the start symbol of [G]
     in which every sentential form over the non-terminals of [G] derives exactly the strings it
     matches in [G]. *)
-Theorem canon_preserves_forms fuel is_lr G names B names' :
-  canon fuel is_lr G names = Ok (B, names') -> names_cover G names ->
+Theorem canon_gen_preserves_forms fuel is_lr G names B names' :
+  canon_gen deep fuel is_lr G names = Ok (B, names') -> names_cover G names ->
   start B = estart G /\
   forall alpha w, sbound (N.of_nat (length names)) (map fac_of alpha) = true ->
     (derives B alpha w <-> ematch G (map fac_of alpha) w).
 Proof.
-  intros H Hc. destruct (canon_reach _ _ _ _ _ _ H) as (st2 & R & _ & Hfin & Hs & _).
+  intros H Hc. destruct (canon_gen_reach _ _ _ _ _ _ H) as (st2 & R & _ & Hfin & Hs & _).
   split; [exact Hs|]. intros alpha w Hb.
   destruct (creach_ok _ _ _ R (proj1 Hc)) as [_ [_ Heq]]. cbn [st_ps next_nt st_names] in Heq.
   apply finalize_to_prods in Hfin.
@@ -808,14 +813,6 @@ Proof.
 Qed.
 
 (** Non-terminals of an EBNF grammar (all occurrences, at any depth, plus left-hand sides). *)
-Fixpoint fnts (f : factor) : list N :=
-  match f with
-  | FT _ => []
-  | FN a => [a]
-  | FGroup b => flat_map (flat_map fnts) b
-  | FOpt b => flat_map (flat_map fnts) b
-  | FRep b => flat_map (flat_map fnts) b
-  end.
 Definition ents (G : egrammar) : list N :=
   estart G :: flat_map (fun p => fst p :: flat_map (flat_map fnts) (snd p)) (eprods G).
 
@@ -845,12 +842,12 @@ Proof.
     apply in_app_iff in Ha as [Ha|Ha]; [exact (IHs H1 a Ha)|exact (IHb H2 a Ha)].
 Qed.
 
-Theorem canon_preserves_lang fuel is_lr G names B names' :
-  canon fuel is_lr G names = Ok (B, names') -> names_cover G names ->
+Theorem canon_gen_preserves_lang fuel is_lr G names B names' :
+  canon_gen deep fuel is_lr G names = Ok (B, names') -> names_cover G names ->
   start B = estart G /\
   forall a, In a (ents G) -> forall w, derives B [NT a] w <-> ematch G [FN a] w.
 Proof.
-  intros H Hc. destruct (canon_preserves_forms _ _ _ _ _ _ H Hc) as [Hs Heq].
+  intros H Hc. destruct (canon_gen_preserves_forms _ _ _ _ _ _ H Hc) as [Hs Heq].
   split; [exact Hs|]. destruct Hc as [Hc Hst]. intros a Ha w. apply (Heq [NT a] w).
   cbn [map fac_of sbound forallb fbound]. rewrite andb_true_r. apply N.ltb_lt.
   destruct Ha as [<-|Ha]; [exact Hst|].
@@ -859,11 +856,11 @@ Proof.
   destruct Ha as [<-|Ha]; [exact Hx|]. exact (proj2 (proj2 (bound_fnts _)) b Hb a Ha).
 Qed.
 
-Corollary canon_preserves_language fuel is_lr G names B names' :
-  canon fuel is_lr G names = Ok (B, names') -> names_cover G names ->
+Corollary canon_gen_preserves_language fuel is_lr G names B names' :
+  canon_gen deep fuel is_lr G names = Ok (B, names') -> names_cover G names ->
   forall w, lang B w <-> elang G w.
 Proof.
-  intros H Hc w. destruct (canon_preserves_lang _ _ _ _ _ _ H Hc) as [Hs Heq].
+  intros H Hc w. destruct (canon_gen_preserves_lang _ _ _ _ _ _ H Hc) as [Hs Heq].
   unfold lang, elang. rewrite Hs. apply Heq. left. reflexivity.
 Qed.
 
@@ -873,7 +870,7 @@ Qed.
     left-hand side or a non-terminal occurring at the top level of some alternative.  A table
     listing only *defined* non-terminals is covered. *)
 Definition covered (st : cstate) : Prop :=
-  forall i, i < length (st_names st) -> In (N.of_nat i) (var_ids (st_ps st)).
+  forall i, i < length (st_names st) -> In (N.of_nat i) (var_ids_gen deep (st_ps st)).
 
 Lemma names_of_in names l : forall ss, names_of names l = Ok ss ->
   forall a s, In a l -> name_of names a = Ok s -> In s ss.
@@ -886,7 +883,7 @@ Proof.
   - right. exact (IH ss' eq_refl a s Ha Hs).
 Qed.
 
-Lemma covered_excl st excl : covered st -> variable_names st = Ok excl ->
+Lemma covered_excl st excl : covered st -> variable_names_gen deep st = Ok excl ->
   forall s, In s (st_names st) -> In s excl.
 Proof.
   intros Hc Hv s Hs. apply In_nth_error in Hs as (i & Hi).
@@ -895,23 +892,23 @@ Proof.
   unfold name_of. rewrite Nat2N.id, Hi. reflexivity.
 Qed.
 
-Lemma var_ids_app p q : var_ids (p ++ q) = var_ids p ++ var_ids q.
+Lemma var_ids_old_app p q : var_ids_old (p ++ q) = var_ids_old p ++ var_ids_old q.
 Proof. apply flat_map_app. Qed.
 
 Lemma top_nts_app p q : top_nts (p ++ q) = top_nts p ++ top_nts q.
 Proof. apply flat_map_app. Qed.
 
 Lemma in_var_ids_unloc i l mid news :
-  In i (var_ids (unloc l mid news)) <->
-  In i (var_ids (l_pre l)) \/ i = l_lhs l \/ In i (flat_map top_nts (l_b1 l)) \/
+  In i (var_ids_old (unloc l mid news)) <->
+  In i (var_ids_old (l_pre l)) \/ i = l_lhs l \/ In i (flat_map top_nts (l_b1 l)) \/
   In i (top_nts (l_s1 l)) \/ In i (top_nts mid) \/ In i (top_nts (l_s2 l)) \/
-  In i (flat_map top_nts (l_b2 l)) \/ In i (var_ids news) \/ In i (var_ids (l_post l)).
+  In i (flat_map top_nts (l_b2 l)) \/ In i (var_ids_old news) \/ In i (var_ids_old (l_post l)).
 Proof.
-  unfold unloc. rewrite var_ids_app, in_app_iff.
-  change (var_ids ((l_lhs l, l_b1 l ++ (l_s1 l ++ mid ++ l_s2 l) :: l_b2 l) :: news ++ l_post l))
+  unfold unloc. rewrite var_ids_old_app, in_app_iff.
+  change (var_ids_old ((l_lhs l, l_b1 l ++ (l_s1 l ++ mid ++ l_s2 l) :: l_b2 l) :: news ++ l_post l))
     with (l_lhs l :: flat_map top_nts (l_b1 l ++ (l_s1 l ++ mid ++ l_s2 l) :: l_b2 l) ++
-          var_ids (news ++ l_post l)).
-  rewrite var_ids_app. cbn [In]. rewrite !in_app_iff, flat_map_app, in_app_iff.
+          var_ids_old (news ++ l_post l)).
+  rewrite var_ids_old_app. cbn [In]. rewrite !in_app_iff, flat_map_app, in_app_iff.
   cbn [flat_map]. rewrite in_app_iff, !top_nts_app, !in_app_iff.
   split; intros H; repeat (destruct H as [H|H]); auto 12.
 Qed.
@@ -942,37 +939,37 @@ Proof.
     exact (IH r' o eq_refl i Hi).
 Qed.
 
-Lemma var_ids_sep a b : forall i, In i (var_ids (map (fun alt => (a, [alt])) b)) <->
+Lemma var_ids_old_sep a b : forall i, In i (var_ids_old (map (fun alt => (a, [alt])) b)) <->
   (b <> [] /\ i = a) \/ In i (flat_map top_nts b).
 Proof.
   induction b as [|alt b IH]; intros i; [cbn; split; [intros []|intros [[H _]|[]]; congruence]|].
-  cbn [map]. change (var_ids ((a, [alt]) :: map (fun alt0 => (a, [alt0])) b))
-    with (a :: (top_nts alt ++ []) ++ var_ids (map (fun alt0 => (a, [alt0])) b)).
+  cbn [map]. change (var_ids_old ((a, [alt]) :: map (fun alt0 => (a, [alt0])) b))
+    with (a :: (top_nts alt ++ []) ++ var_ids_old (map (fun alt0 => (a, [alt0])) b)).
   rewrite app_nil_r. cbn [In flat_map]. rewrite !in_app_iff, IH. split.
   - intros [H|[H|[[_ H]|H]]]; try (left; split; [discriminate|subst; reflexivity]); auto.
   - intros [[_ H]|[H|H]]; auto.
 Qed.
 
 Lemma rewrite_var_ids is_lr X ps ps' F : rewrite is_lr X ps ps' F ->
-  incl (var_ids ps) (var_ids ps') /\ (forall f, F = Some f -> In X (var_ids ps')).
+  incl (var_ids_old ps) (var_ids_old ps') /\ (forall f, F = Some f -> In X (var_ids_old ps')).
 Proof.
   intros Hrw.
   destruct Hrw as [ps pre a b' o post Hex|ps ps' Hsep|ps l Hfind|ps l alt Hfind Hfb|ps l Hfind Hfb].
   - apply ex_prods_spec in Hex as (b & -> & Hex). split.
-    + intros i Hi. rewrite var_ids_app, in_app_iff in *. destruct Hi as [Hi|Hi]; [left; exact Hi|right].
-      change (var_ids ((a, b) :: post)) with (a :: flat_map top_nts b ++ var_ids post) in Hi.
-      change (In i (a :: flat_map top_nts b' ++ var_ids ((X, [[FGroup o]]) :: (X, [[]]) :: post))).
+    + intros i Hi. rewrite var_ids_old_app, in_app_iff in *. destruct Hi as [Hi|Hi]; [left; exact Hi|right].
+      change (var_ids_old ((a, b) :: post)) with (a :: flat_map top_nts b ++ var_ids_old post) in Hi.
+      change (In i (a :: flat_map top_nts b' ++ var_ids_old ((X, [[FGroup o]]) :: (X, [[]]) :: post))).
       destruct Hi as [Hi|Hi]; [left; exact Hi|right]. apply in_app_iff in Hi. apply in_app_iff.
       destruct Hi as [Hi|Hi]; [left; exact (proj2 (ex_top X) b b' o Hex i Hi)|right].
       right. right. exact Hi.
-    + intros f _. rewrite var_ids_app, in_app_iff. right. right. apply in_app_iff. right. left. reflexivity.
+    + intros f _. rewrite var_ids_old_app, in_app_iff. right. right. apply in_app_iff. right. left. reflexivity.
   - apply sep_step_spec in Hsep as (pre & a & b & post & -> & Hlt & -> & _).
-    split; [|discriminate]. intros i Hi. rewrite !var_ids_app, !in_app_iff in *.
+    split; [|discriminate]. intros i Hi. rewrite !var_ids_old_app, !in_app_iff in *.
     destruct Hi as [Hi|Hi]; [left; exact Hi|right].
-    change (var_ids ((a, b) :: post)) with (a :: flat_map top_nts b ++ var_ids post) in Hi.
+    change (var_ids_old ((a, b) :: post)) with (a :: flat_map top_nts b ++ var_ids_old post) in Hi.
     destruct Hi as [Hi|Hi].
-    + left. apply var_ids_sep. left. split; [|auto]. destruct b; [cbn in Hlt; lia|discriminate].
-    + apply in_app_iff in Hi as [Hi|Hi]; [left; apply var_ids_sep; right; exact Hi|right; exact Hi].
+    + left. apply var_ids_old_sep. left. split; [|auto]. destruct b; [cbn in Hlt; lia|discriminate].
+    + apply in_app_iff in Hi as [Hi|Hi]; [left; apply var_ids_old_sep; right; exact Hi|right; exact Hi].
   - apply find_prods_spec in Hfind as (E & Hr). apply is_rep_inv in Hr. split.
     + intros i Hi. rewrite E in Hi. apply in_var_ids_unloc in Hi. apply in_var_ids_unloc.
       destruct Hi as [H|[H|[H|[H|[H|[H|[H|[H|H]]]]]]]]; auto 12.
@@ -991,6 +988,141 @@ Proof.
     + intros f _. apply in_var_ids_unloc. right. right. right. right. left. left. reflexivity.
 Qed.
 
+(** The same for the repaired [variable_names] (all nesting depths). *)
+Lemma var_ids_app p q : var_ids (p ++ q) = var_ids p ++ var_ids q.
+Proof. apply flat_map_app. Qed.
+Lemma seq_nts_app p q : seq_nts (p ++ q) = seq_nts p ++ seq_nts q.
+Proof. apply flat_map_app. Qed.
+Lemma alts_nts_app p q : alts_nts (p ++ q) = alts_nts p ++ alts_nts q.
+Proof. apply flat_map_app. Qed.
+Lemma alts_nts_cons a b : alts_nts (a :: b) = seq_nts a ++ alts_nts b.
+Proof. reflexivity. Qed.
+Lemma seq_nts_cons f a : seq_nts (f :: a) = fnts f ++ seq_nts a.
+Proof. reflexivity. Qed.
+Lemma var_ids_cons a b ps : var_ids ((a, b) :: ps) = a :: alts_nts b ++ var_ids ps.
+Proof. reflexivity. Qed.
+
+Lemma in_var_ids_unloc_deep i l mid news :
+  In i (var_ids (unloc l mid news)) <->
+  In i (var_ids (l_pre l)) \/ i = l_lhs l \/ In i (alts_nts (l_b1 l)) \/
+  In i (seq_nts (l_s1 l)) \/ In i (seq_nts mid) \/ In i (seq_nts (l_s2 l)) \/
+  In i (alts_nts (l_b2 l)) \/ In i (var_ids news) \/ In i (var_ids (l_post l)).
+Proof.
+  unfold unloc. rewrite var_ids_app, in_app_iff, var_ids_cons, var_ids_app. cbn [In].
+  rewrite !in_app_iff, alts_nts_app, in_app_iff, alts_nts_cons, in_app_iff, !seq_nts_app, !in_app_iff.
+  split; intros H; repeat (destruct H as [H|H]); auto 12.
+Qed.
+
+Lemma ex_fnts X :
+  (forall f f' o, ex_fac X f = Some (f', o) ->
+     forall i, In i (fnts f) -> In i (fnts f') \/ In i (alts_nts o)) /\
+  (forall a a' o, ex_seq X a = Some (a', o) ->
+     forall i, In i (seq_nts a) -> In i (seq_nts a') \/ In i (alts_nts o)) /\
+  (forall b b' o, ex_alts X b = Some (b', o) ->
+     forall i, In i (alts_nts b) -> In i (alts_nts b') \/ In i (alts_nts o)).
+Proof.
+  apply factor_mutind.
+  - intros t f' o H. discriminate.
+  - intros a f' o H. discriminate.
+  - intros b IH f' o H i Hi. rewrite ex_fac_group in H.
+    destruct (ex_alts X b) as [[b' o']|] eqn:E; [|discriminate]. inversion H; subst f' o'.
+    exact (IH b' o eq_refl i Hi).
+  - intros b _ f' o H i Hi. rewrite ex_fac_opt in H. inversion H; subst f' o. right. exact Hi.
+  - intros b IH f' o H i Hi. rewrite ex_fac_rep in H.
+    destruct (ex_alts X b) as [[b' o']|] eqn:E; [|discriminate]. inversion H; subst f' o'.
+    exact (IH b' o eq_refl i Hi).
+  - intros a' o H. discriminate.
+  - intros f fs IHf IHs a' o H i Hi. cbn [ex_seq] in H. rewrite seq_nts_cons, in_app_iff in Hi.
+    destruct (ex_fac X f) as [[f' o']|] eqn:Ef.
+    + inversion H; subst a' o'. rewrite seq_nts_cons, in_app_iff.
+      destruct Hi as [Hi|Hi]; [|auto]. destruct (IHf f' o eq_refl i Hi); auto.
+    + destruct (ex_seq X fs) as [[r' o']|] eqn:Es; [|discriminate]. inversion H; subst a' o'.
+      rewrite seq_nts_cons, in_app_iff.
+      destruct Hi as [Hi|Hi]; [auto|]. destruct (IHs r' o eq_refl i Hi); auto.
+  - intros b' o H. discriminate.
+  - intros a b IHa IHb b' o H i Hi. cbn [ex_alts] in H. rewrite alts_nts_cons, in_app_iff in Hi.
+    destruct (ex_seq X a) as [[a' o']|] eqn:Ea.
+    + inversion H; subst b' o'. rewrite alts_nts_cons, in_app_iff.
+      destruct Hi as [Hi|Hi]; [|auto]. destruct (IHa a' o eq_refl i Hi); auto.
+    + destruct (ex_alts X b) as [[r' o']|] eqn:Eb; [|discriminate]. inversion H; subst b' o'.
+      rewrite alts_nts_cons, in_app_iff.
+      destruct Hi as [Hi|Hi]; [auto|]. destruct (IHb r' o eq_refl i Hi); auto.
+Qed.
+
+Lemma var_ids_sep_deep a b : forall i, In i (var_ids (map (fun alt => (a, [alt])) b)) <->
+  (b <> [] /\ i = a) \/ In i (alts_nts b).
+Proof.
+  induction b as [|alt b IH]; intros i; [cbn; split; [intros []|intros [[H _]|[]]; congruence]|].
+  cbn [map]. rewrite var_ids_cons, alts_nts_cons, alts_nts_cons. cbn [alts_nts flat_map In].
+  rewrite !app_nil_r, !in_app_iff, IH. split.
+  - intros [H|[H|[[_ H]|H]]]; try (left; split; [discriminate|subst; reflexivity]); auto.
+  - intros [[_ H]|[H|H]]; auto.
+Qed.
+
+Lemma rep_news_ids is_lr X rb i : In i (alts_nts rb) -> In i (var_ids (rep_news is_lr X rb)).
+Proof.
+  intros Hi. unfold rep_news. destruct rb as [|alt [|alt2 rb']]; [destruct Hi| |].
+  - rewrite alts_nts_cons in Hi. cbn [alts_nts flat_map] in Hi. rewrite app_nil_r in Hi.
+    rewrite var_ids_cons. right. apply in_app_iff. left.
+    destruct is_lr; rewrite alts_nts_cons; cbn [alts_nts flat_map]; rewrite app_nil_r.
+    + rewrite seq_nts_cons. apply in_app_iff. right. exact Hi.
+    + rewrite seq_nts_app. apply in_app_iff. left. exact Hi.
+  - rewrite var_ids_cons. right. apply in_app_iff. left.
+    destruct is_lr; rewrite alts_nts_cons; cbn [alts_nts flat_map]; rewrite app_nil_r;
+      rewrite !seq_nts_cons, !in_app_iff; [right; left|left]; exact Hi.
+Qed.
+
+Lemma rewrite_var_ids_deep is_lr X ps ps' F : rewrite is_lr X ps ps' F ->
+  incl (var_ids ps) (var_ids ps') /\ (forall f, F = Some f -> In X (var_ids ps')).
+Proof.
+  intros Hrw.
+  destruct Hrw as [ps pre a b' o post Hex|ps ps' Hsep|ps l Hfind|ps l alt Hfind Hfb|ps l Hfind Hfb].
+  - apply ex_prods_spec in Hex as (b & -> & Hex). split.
+    + intros i Hi. rewrite var_ids_app, in_app_iff in *. destruct Hi as [Hi|Hi]; [left; exact Hi|right].
+      rewrite var_ids_cons in Hi. rewrite !var_ids_cons.
+      cbn [In] in *. rewrite !in_app_iff in *. cbn [In]. rewrite !in_app_iff. cbn [In]. rewrite !in_app_iff.
+      destruct Hi as [Hi|[Hi|Hi]]; [auto| |auto 10].
+      destruct (proj2 (proj2 (ex_fnts X)) b b' o Hex i Hi) as [H|H]; [auto|].
+      right. right. right. left. rewrite alts_nts_cons, seq_nts_cons. cbn [alts_nts flat_map seq_nts].
+      rewrite !app_nil_r. exact H.
+    + intros f _. rewrite var_ids_app, in_app_iff. right. rewrite !var_ids_cons. right.
+      apply in_app_iff. right. left. reflexivity.
+  - apply sep_step_spec in Hsep as (pre & a & b & post & -> & Hlt & -> & _).
+    split; [|discriminate]. intros i Hi. rewrite !var_ids_app, !in_app_iff in *.
+    destruct Hi as [Hi|Hi]; [left; exact Hi|right]. rewrite var_ids_cons in Hi.
+    destruct Hi as [Hi|Hi].
+    + left. apply var_ids_sep_deep. left. split; [|auto]. destruct b; [cbn in Hlt; lia|discriminate].
+    + apply in_app_iff in Hi as [Hi|Hi]; [left; apply var_ids_sep_deep; right; exact Hi|right; exact Hi].
+  - apply find_prods_spec in Hfind as (E & Hr). apply is_rep_inv in Hr. split.
+    + intros i Hi. rewrite E in Hi. apply in_var_ids_unloc_deep in Hi. apply in_var_ids_unloc_deep.
+      destruct Hi as [H|[H|[H|[H|[H|[H|[H|[H|H]]]]]]]]; auto 12.
+      * rewrite Hr in H. rewrite seq_nts_cons in H. cbn [seq_nts flat_map] in H. rewrite app_nil_r in H.
+        right. right. right. right. right. right. right. left. apply rep_news_ids. exact H.
+      * destruct H.
+    + intros f _. apply in_var_ids_unloc_deep. right. right. right. right. left. left. reflexivity.
+  - apply find_prods_spec in Hfind as (E & Hg). apply is_grp_inv in Hg. rewrite Hfb in Hg.
+    split; [|discriminate].
+    intros i Hi. rewrite E in Hi. apply in_var_ids_unloc_deep in Hi. apply in_var_ids_unloc_deep.
+    destruct Hi as [H|[H|[H|[H|[H|[H|[H|[H|H]]]]]]]]; auto 12.
+    rewrite Hg in H. rewrite seq_nts_cons in H. cbn [seq_nts flat_map fnts] in H.
+    rewrite !app_nil_r in H. auto 12.
+  - apply find_prods_spec in Hfind as (E & Hg). apply is_grp_inv in Hg. split.
+    + intros i Hi. rewrite E in Hi. apply in_var_ids_unloc_deep in Hi. apply in_var_ids_unloc_deep.
+      destruct Hi as [H|[H|[H|[H|[H|[H|[H|[H|H]]]]]]]]; auto 12.
+      * rewrite Hg in H. rewrite seq_nts_cons in H. cbn [seq_nts flat_map] in H. rewrite app_nil_r in H.
+        right. right. right. right. right. right. right. left. rewrite var_ids_cons. right.
+        apply in_app_iff. left. exact H.
+      * destruct H.
+    + intros f _. apply in_var_ids_unloc_deep. right. right. right. right. left. left. reflexivity.
+Qed.
+
+Lemma rewrite_var_ids_gen is_lr X ps ps' F : rewrite is_lr X ps ps' F ->
+  incl (var_ids_gen deep ps) (var_ids_gen deep ps') /\
+  (forall f, F = Some f -> In X (var_ids_gen deep ps')).
+Proof.
+  unfold var_ids_gen. destruct deep; [apply rewrite_var_ids_deep|apply rewrite_var_ids].
+Qed.
+
 Lemma NoDup_snoc {A} (l : list A) x : NoDup l -> ~ In x l -> NoDup (l ++ [x]).
 Proof.
   induction 1 as [|y l Hy Hl IH]; intros Hx; cbn [app].
@@ -1004,7 +1136,7 @@ Lemma cstep_names is_lr st st' : cstep is_lr st st' -> covered st -> NoDup (st_n
   covered st' /\ NoDup (st_names st') /\ exists ext, st_names st' = st_names st ++ ext.
 Proof.
   intros Hs Hc Hnd. destruct Hs as [f name excl Hrw Hv Hname Hnames|Hrw Hnames].
-  - destruct (rewrite_var_ids _ _ _ _ _ Hrw) as [Hincl HX]. repeat split.
+  - destruct (rewrite_var_ids_gen _ _ _ _ _ Hrw) as [Hincl HX]. repeat split.
     + intros i Hi. rewrite Hnames, app_length in Hi. cbn [length] in Hi.
       destruct (Nat.eq_dec i (length (st_names st))) as [->|Hne].
       * exact (HX f eq_refl).
@@ -1012,7 +1144,7 @@ Proof.
     + rewrite Hnames. apply NoDup_snoc; [exact Hnd|]. intros Hin. apply Hname.
       exact (covered_excl st excl Hc Hv name Hin).
     + exists [name]. exact Hnames.
-  - destruct (rewrite_var_ids _ _ _ _ _ Hrw) as [Hincl _]. repeat split.
+  - destruct (rewrite_var_ids_gen _ _ _ _ _ Hrw) as [Hincl _]. repeat split.
     + intros i Hi. rewrite Hnames in Hi. apply Hincl. apply Hc. exact Hi.
     + rewrite Hnames. exact Hnd.
     + exists []. rewrite app_nil_r. exact Hnames.
@@ -1031,12 +1163,12 @@ Qed.
 (** If every name of the table is visible to [variable_names] (in particular: if the table lists
     exactly the defined non-terminals) and the names are pairwise different, then the helper
     names are pairwise different and different from all names of the table. *)
-Theorem canon_fresh fuel is_lr G names B names' :
-  canon fuel is_lr G names = Ok (B, names') ->
+Theorem canon_gen_fresh fuel is_lr G names B names' :
+  canon_gen deep fuel is_lr G names = Ok (B, names') ->
   covered (mkSt (eprods G) names) -> NoDup names ->
   NoDup names' /\ exists helpers, names' = names ++ helpers.
 Proof.
-  intros H Hc Hnd. destruct (canon_reach _ _ _ _ _ _ H) as (st2 & R & _ & _ & _ & ->).
+  intros H Hc Hnd. destruct (canon_gen_reach _ _ _ _ _ _ H) as (st2 & R & _ & _ & _ & ->).
   destruct (creach_names _ _ _ R Hc Hnd) as (_ & Hnd2 & Hext). split; [exact Hnd2|exact Hext].
 Qed.
 
@@ -1168,30 +1300,30 @@ Proof.
   destruct (names_of names l) as [ss|e]; cbn [bind]; [discriminate|congruence].
 Qed.
 
-Lemma extract_step_nofuel st : extract_step st <> Err OutOfFuel.
+Lemma extract_step_nofuel st : extract_step deep st <> Err OutOfFuel.
 Proof.
   unfold extract_step. destruct (ex_prods (next_nt st) (st_ps st)) as [[[[[pre a] b'] o] post]|]; [|discriminate].
-  pose proof (names_of_nofuel (st_names st) (var_ids (st_ps st))) as H1. fold (variable_names st) in H1.
-  destruct (variable_names st) as [excl|e]; cbn [bind]; [|congruence].
+  pose proof (names_of_nofuel (st_names st) (var_ids_gen deep (st_ps st))) as H1. fold (variable_names_gen deep st) in H1.
+  destruct (variable_names_gen deep st) as [excl|e]; cbn [bind]; [|congruence].
   pose proof (name_of_nofuel (st_names st) a). destruct (name_of (st_names st) a); cbn [bind]; [discriminate|congruence].
 Qed.
 
-Lemma rep_step_nofuel is_lr st : rep_step is_lr st <> Err OutOfFuel.
+Lemma rep_step_nofuel is_lr st : rep_step deep is_lr st <> Err OutOfFuel.
 Proof.
   unfold rep_step. destruct (find_prods is_rep (st_ps st)) as [l|]; [|discriminate].
-  pose proof (names_of_nofuel (st_names st) (var_ids (st_ps st))) as H1. fold (variable_names st) in H1.
-  destruct (variable_names st) as [excl|e]; cbn [bind]; [|congruence].
+  pose proof (names_of_nofuel (st_names st) (var_ids_gen deep (st_ps st))) as H1. fold (variable_names_gen deep st) in H1.
+  destruct (variable_names_gen deep st) as [excl|e]; cbn [bind]; [|congruence].
   pose proof (name_of_nofuel (st_names st) (l_lhs l)).
   destruct (name_of (st_names st) (l_lhs l)); cbn [bind]; [discriminate|congruence].
 Qed.
 
-Lemma grp_step_nofuel st : grp_step st <> Err OutOfFuel.
+Lemma grp_step_nofuel st : grp_step deep st <> Err OutOfFuel.
 Proof.
   unfold grp_step. destruct (find_prods is_grp (st_ps st)) as [l|]; [|discriminate].
-  pose proof (names_of_nofuel (st_names st) (var_ids (st_ps st))) as H1. fold (variable_names st) in H1.
+  pose proof (names_of_nofuel (st_names st) (var_ids_gen deep (st_ps st))) as H1. fold (variable_names_gen deep st) in H1.
   pose proof (name_of_nofuel (st_names st) (l_lhs l)) as H2.
   destruct (fbody (l_f l)) as [|alt [|alt2 gb]]; try discriminate;
-    (destruct (variable_names st) as [excl|e]; cbn [bind]; [|congruence]);
+    (destruct (variable_names_gen deep st) as [excl|e]; cbn [bind]; [|congruence]);
     (destruct (name_of (st_names st) (l_lhs l)); cbn [bind]; [discriminate|congruence]).
 Qed.
 
@@ -1204,11 +1336,11 @@ Proof.
 Qed.
 
 (** *** The loops *)
-Lemma extract_loop_fuel (is_lr : bool) fuel : forall st, cm st <= fuel -> extract_loop fuel st <> Err OutOfFuel.
+Lemma extract_loop_fuel (is_lr : bool) fuel : forall st, cm st <= fuel -> extract_loop deep fuel st <> Err OutOfFuel.
 Proof.
   induction fuel as [|k IH]; intros st Hle; cbn [extract_loop];
     pose proof (extract_step_nofuel st) as Hnf;
-    destruct (extract_step st) as [[st1|]|e] eqn:Es; cbn [bind]; try discriminate; try congruence.
+    destruct (extract_step deep st) as [[st1|]|e] eqn:Es; cbn [bind]; try discriminate; try congruence.
   - pose proof (cstep_measure _ _ _ (extract_step_some is_lr _ _ Es)). lia.
   - apply IH. pose proof (cstep_measure _ _ _ (extract_step_some is_lr _ _ Es)). lia.
 Qed.
@@ -1221,20 +1353,20 @@ Proof.
   - apply IH. pose proof (canon_measure_decreases false 0%N _ _ _ (rw_sep _ _ _ _ Es)). lia.
 Qed.
 
-Lemma rep_loop_fuel is_lr fuel : forall st m, cm st <= fuel -> rep_loop fuel is_lr st m <> Err OutOfFuel.
+Lemma rep_loop_fuel is_lr fuel : forall st m, cm st <= fuel -> rep_loop deep fuel is_lr st m <> Err OutOfFuel.
 Proof.
   induction fuel as [|k IH]; intros st m Hle; cbn [rep_loop];
     pose proof (rep_step_nofuel is_lr st) as Hnf;
-    destruct (rep_step is_lr st) as [[st1|]|e] eqn:Es; cbn [bind]; try discriminate; try congruence.
+    destruct (rep_step deep is_lr st) as [[st1|]|e] eqn:Es; cbn [bind]; try discriminate; try congruence.
   - pose proof (cstep_measure _ _ _ (rep_step_some _ _ _ Es)). lia.
   - apply IH. pose proof (cstep_measure _ _ _ (rep_step_some _ _ _ Es)). lia.
 Qed.
 
-Lemma grp_loop_fuel fuel : forall st m, cm st <= fuel -> grp_loop fuel st m <> Err OutOfFuel.
+Lemma grp_loop_fuel fuel : forall st m, cm st <= fuel -> grp_loop deep fuel st m <> Err OutOfFuel.
 Proof.
   induction fuel as [|k IH]; intros st m Hle; cbn [grp_loop];
     pose proof (grp_step_nofuel st) as Hnf;
-    destruct (grp_step st) as [[st1|]|e] eqn:Es; cbn [bind]; try discriminate; try congruence.
+    destruct (grp_step deep st) as [[st1|]|e] eqn:Es; cbn [bind]; try discriminate; try congruence.
   - pose proof (cstep_measure _ _ _ (grp_step_some false _ _ Es)). lia.
   - apply IH. pose proof (cstep_measure _ _ _ (grp_step_some false _ _ Es)). lia.
 Qed.
@@ -1251,22 +1383,22 @@ Proof.
   - inversion H; subst. left. split; reflexivity.
 Qed.
 
-Lemma rep_loop_flag is_lr fuel : forall st m st' m', rep_loop fuel is_lr st m = Ok (st', m') ->
+Lemma rep_loop_flag is_lr fuel : forall st m st' m', rep_loop deep fuel is_lr st m = Ok (st', m') ->
   (st' = st /\ m' = m) \/ (m' = true /\ cm st' < cm st).
 Proof.
   induction fuel as [|k IH]; intros st m st' m' H; cbn [rep_loop] in H;
-    destruct (rep_step is_lr st) as [[st1|]|e] eqn:Es; cbn [bind] in H; try discriminate.
+    destruct (rep_step deep is_lr st) as [[st1|]|e] eqn:Es; cbn [bind] in H; try discriminate.
   - inversion H; subst. left. split; reflexivity.
   - pose proof (cstep_measure _ _ _ (rep_step_some _ _ _ Es)).
     destruct (IH _ _ _ _ H) as [[-> ->]|[-> Hlt]]; right; split; try reflexivity; lia.
   - inversion H; subst. left. split; reflexivity.
 Qed.
 
-Lemma grp_loop_flag fuel : forall st m st' m', grp_loop fuel st m = Ok (st', m') ->
+Lemma grp_loop_flag fuel : forall st m st' m', grp_loop deep fuel st m = Ok (st', m') ->
   (st' = st /\ m' = m) \/ (m' = true /\ cm st' < cm st).
 Proof.
   induction fuel as [|k IH]; intros st m st' m' H; cbn [grp_loop] in H;
-    destruct (grp_step st) as [[st1|]|e] eqn:Es; cbn [bind] in H; try discriminate.
+    destruct (grp_step deep st) as [[st1|]|e] eqn:Es; cbn [bind] in H; try discriminate.
   - inversion H; subst. left. split; reflexivity.
   - pose proof (cstep_measure _ _ _ (grp_step_some false _ _ Es)).
     destruct (IH _ _ _ _ H) as [[-> ->]|[-> Hlt]]; right; split; try reflexivity; lia.
@@ -1274,11 +1406,11 @@ Proof.
 Qed.
 
 Lemma trans_fn_flag is_lr fuel st st' : gnoopt (st_ps st) = true ->
-  trans_fn fuel is_lr st = Ok (st', true) -> cm st' < cm st.
+  trans_fn deep fuel is_lr st = Ok (st', true) -> cm st' < cm st.
 Proof.
   intros Hn H. unfold trans_fn in H.
   destruct (sep_loop fuel (st_ps st) false) as [[ps1 m1]|e] eqn:E1; [|discriminate]. cbn [bind] in H.
-  destruct (rep_loop fuel is_lr (mkSt ps1 (st_names st)) m1) as [[st2 m2]|e] eqn:E2; [|discriminate].
+  destruct (rep_loop deep fuel is_lr (mkSt ps1 (st_names st)) m1) as [[st2 m2]|e] eqn:E2; [|discriminate].
   cbn [bind] in H.
   pose proof (sep_loop_reach is_lr (st_names st) _ _ _ _ _ E1) as R1.
   assert (Est : mkSt (st_ps st) (st_names st) = st) by (destruct st; reflexivity).
@@ -1300,7 +1432,7 @@ Proof.
 Qed.
 
 Lemma trans_fn_fuel is_lr fuel st : gnoopt (st_ps st) = true -> cm st <= fuel ->
-  trans_fn fuel is_lr st <> Err OutOfFuel.
+  trans_fn deep fuel is_lr st <> Err OutOfFuel.
 Proof.
   intros Hn Hle. unfold trans_fn.
   pose proof (sep_loop_fuel fuel (st_ps st) false Hle) as N1.
@@ -1308,66 +1440,137 @@ Proof.
   pose proof (sep_loop_reach is_lr (st_names st) _ _ _ _ _ E1) as R1.
   assert (Est : mkSt (st_ps st) (st_names st) = st) by (destruct st; reflexivity).
   rewrite Est in R1. pose proof (creach_measure _ _ _ R1) as M1.
-  assert (N2 : rep_loop fuel is_lr (mkSt ps1 (st_names st)) m1 <> Err OutOfFuel) by (apply rep_loop_fuel; lia).
-  destruct (rep_loop fuel is_lr (mkSt ps1 (st_names st)) m1) as [[st2 m2]|e] eqn:E2; cbn [bind]; [|congruence].
+  assert (N2 : rep_loop deep fuel is_lr (mkSt ps1 (st_names st)) m1 <> Err OutOfFuel) by (apply rep_loop_fuel; lia).
+  destruct (rep_loop deep fuel is_lr (mkSt ps1 (st_names st)) m1) as [[st2 m2]|e] eqn:E2; cbn [bind]; [|congruence].
   pose proof (rep_loop_reach _ _ _ _ _ _ E2) as R2. pose proof (creach_measure _ _ _ R2) as M2.
   pose proof (creach_noopt _ _ _ (creach_trans _ _ _ _ R1 R2) Hn) as Hn2.
   rewrite (opt_loop_id fuel st2 m2 Hn2). cbn [bind]. apply grp_loop_fuel. lia.
 Qed.
 
 Lemma main_loop_fuel is_lr fuel n : forall st, gnoopt (st_ps st) = true -> cm st < n -> cm st <= fuel ->
-  main_loop fuel n is_lr st <> Err OutOfFuel.
+  main_loop deep fuel n is_lr st <> Err OutOfFuel.
 Proof.
   induction n as [|k IH]; intros st Hn Hlt Hle; [lia|]. cbn [main_loop].
   pose proof (trans_fn_fuel is_lr fuel st Hn Hle) as N1.
-  destruct (trans_fn fuel is_lr st) as [[st1 m]|e] eqn:Et; cbn [bind]; [|congruence].
+  destruct (trans_fn deep fuel is_lr st) as [[st1 m]|e] eqn:Et; cbn [bind]; [|congruence].
   destruct m; [|discriminate].
   pose proof (trans_fn_flag _ _ _ _ Hn Et) as Hdec.
   apply IH; [|lia|lia]. exact (creach_noopt _ _ _ (trans_fn_reach _ _ _ _ _ Hn Et) Hn).
 Qed.
 
 (** [canon_fuel G] (or any larger amount) is enough fuel. *)
-Theorem canon_terminates fuel is_lr G names : canon_fuel G <= fuel ->
-  canon fuel is_lr G names <> Err OutOfFuel.
+Theorem canon_gen_terminates fuel is_lr G names : canon_fuel G <= fuel ->
+  canon_gen deep fuel is_lr G names <> Err OutOfFuel.
 Proof.
-  unfold canon_fuel, canon. intros Hle.
-  assert (N1 : extract_loop fuel (mkSt (eprods G) names) <> Err OutOfFuel)
+  unfold canon_fuel, canon_gen. intros Hle.
+  assert (N1 : extract_loop deep fuel (mkSt (eprods G) names) <> Err OutOfFuel)
     by (apply (extract_loop_fuel is_lr); unfold cm; cbn [st_ps]; lia).
-  destruct (extract_loop fuel (mkSt (eprods G) names)) as [st1|e] eqn:E1; cbn [bind]; [|congruence].
+  destruct (extract_loop deep fuel (mkSt (eprods G) names)) as [st1|e] eqn:E1; cbn [bind]; [|congruence].
   destruct (extract_loop_reach is_lr _ _ _ E1) as [R1 Hn1].
   pose proof (creach_measure _ _ _ R1) as M1. unfold cm in M1. cbn [st_ps] in M1.
-  assert (N2 : main_loop fuel (S fuel) is_lr st1 <> Err OutOfFuel)
+  assert (N2 : main_loop deep fuel (S fuel) is_lr st1 <> Err OutOfFuel)
     by (apply main_loop_fuel; [exact Hn1|unfold cm; lia|unfold cm; lia]).
-  destruct (main_loop fuel (S fuel) is_lr st1) as [st2|e] eqn:E2; cbn [bind]; [|congruence].
+  destruct (main_loop deep fuel (S fuel) is_lr st1) as [st2|e] eqn:E2; cbn [bind]; [|congruence].
   pose proof (finalize_nofuel (st_ps st2)) as N3.
   destruct (finalize (st_ps st2)) as [l|e]; cbn [bind]; [discriminate|congruence].
 Qed.
 
-(** ** A helper name can coincide with a name in use (finding)
+End Deep.
 
-    [variable_names] collects left-hand sides and *top-level* non-terminals only.  A
+(** ** The theorems for the repaired code ([canon]) and for the pinned commit ([canon_old]) *)
+
+Theorem canon_preserves_forms fuel is_lr G names B names' :
+  canon fuel is_lr G names = Ok (B, names') -> names_cover G names ->
+  start B = estart G /\
+  forall alpha w, sbound (N.of_nat (length names)) (map fac_of alpha) = true ->
+    (derives B alpha w <-> ematch G (map fac_of alpha) w).
+Proof. exact (canon_gen_preserves_forms true fuel is_lr G names B names'). Qed.
+
+Theorem canon_preserves_lang fuel is_lr G names B names' :
+  canon fuel is_lr G names = Ok (B, names') -> names_cover G names ->
+  start B = estart G /\
+  forall a, In a (ents G) -> forall w, derives B [NT a] w <-> ematch G [FN a] w.
+Proof. exact (canon_gen_preserves_lang true fuel is_lr G names B names'). Qed.
+
+Corollary canon_preserves_language fuel is_lr G names B names' :
+  canon fuel is_lr G names = Ok (B, names') -> names_cover G names ->
+  forall w, lang B w <-> elang G w.
+Proof. exact (canon_gen_preserves_language true fuel is_lr G names B names'). Qed.
+
+Theorem canon_terminates fuel is_lr G names : canon_fuel G <= fuel ->
+  canon fuel is_lr G names <> Err OutOfFuel.
+Proof. exact (canon_gen_terminates true fuel is_lr G names). Qed.
+
+(** [names_used G names]: the table has no unused entry - every index below [length names] is
+    a left-hand side or occurs (at any nesting depth) in some right-hand side.  Together with
+    [names_cover] and [NoDup names] this says that the table is a bijection between the
+    non-terminals of [G] and their names, i.e. that [(G, names)] represents a grammar of the
+    Rust code (where a non-terminal *is* its name). *)
+Definition names_used (G : egrammar) (names : list string) : Prop :=
+  forall i, i < length names -> In (N.of_nat i) (var_ids (eprods G)).
+
+Definition names_usedb (G : egrammar) (names : list string) : bool :=
+  forallb (fun i => existsb (N.eqb (N.of_nat i)) (var_ids (eprods G))) (seq 0 (length names)).
+
+Lemma names_usedb_spec G names : names_usedb G names = true <-> names_used G names.
+Proof.
+  unfold names_usedb, names_used. rewrite forallb_forall. split.
+  - intros H i Hi. specialize (H i ltac:(apply in_seq; lia)). apply existsb_exists in H as (x & Hx & E).
+    apply N.eqb_eq in E. subst x. exact Hx.
+  - intros H i Hi. apply in_seq in Hi. apply existsb_exists. exists (N.of_nat i).
+    split; [apply H; lia|apply N.eqb_refl].
+Qed.
+
+(** Repaired code: helper names are pairwise different and different from every name of the
+    grammar, whatever the nesting depth of its occurrences. *)
+Theorem canon_fresh fuel is_lr G names B names' :
+  canon fuel is_lr G names = Ok (B, names') -> names_used G names -> NoDup names ->
+  NoDup names' /\ exists helpers, names' = names ++ helpers.
+Proof. exact (canon_gen_fresh true fuel is_lr G names B names'). Qed.
+
+(** Pinned commit: the same theorems; freshness only if every name is visible at top level. *)
+Theorem canon_old_preserves_lang fuel is_lr G names B names' :
+  canon_old fuel is_lr G names = Ok (B, names') -> names_cover G names ->
+  start B = estart G /\
+  forall a, In a (ents G) -> forall w, derives B [NT a] w <-> ematch G [FN a] w.
+Proof. exact (canon_gen_preserves_lang false fuel is_lr G names B names'). Qed.
+
+Theorem canon_old_fresh fuel is_lr G names B names' :
+  canon_old fuel is_lr G names = Ok (B, names') ->
+  covered false (mkSt (eprods G) names) -> NoDup names ->
+  NoDup names' /\ exists helpers, names' = names ++ helpers.
+Proof. exact (canon_gen_fresh false fuel is_lr G names B names'). Qed.
+
+Theorem canon_old_terminates fuel is_lr G names : canon_fuel G <= fuel ->
+  canon_old fuel is_lr G names <> Err OutOfFuel.
+Proof. exact (canon_gen_terminates false fuel is_lr G names). Qed.
+
+(** ** The defect of the pinned commit (finding, repaired in the working tree)
+
+    The old [variable_names] collected left-hand sides and *top-level* non-terminals only.  A
     non-terminal that occurs only nested inside a group/repetition/optional and has no
-    production of its own is invisible to [generate_name]; a helper may then receive its name.
-    parol accepts  [%grammar_type 'LALR(1)'  S: ( "a" | SGroup "b" );]  (SGroup undefined) and
-    produces  [S: SGroup; SGroup: "a"; SGroup: SGroup "b";]  - language  a b*  instead of the
-    "non-productive non-terminal SGroup" error that  [S: "a" | SGroup "b";]  gets. *)
+    production of its own was invisible to [generate_name]; a helper could then receive its name.
+    At the pinned commit parol accepted  [%grammar_type 'LALR(1)'  S: ( "a" | SGroup "b" );]
+    (SGroup undefined) and produced  [S: SGroup; SGroup: "a"; SGroup: SGroup "b";]  - language
+    a b*  instead of the "non-productive non-terminal SGroup" error that  [S: "a" | SGroup "b";]
+    gets.  The repaired code names the helper [SGroup0]. *)
 Local Open Scope string_scope.
 
 Definition ex_collide : egrammar := mkEg 0 [(0%N, [[FGroup [[FT 5]; [FN 1; FT 6]]]])].
 
 Theorem canon_fresh_refuted : exists G names B names',
-  canon (canon_fuel G) true G names = Ok (B, names') /\
-  names_cover G names /\ NoDup names /\ ~ NoDup names'.
+  canon_old (canon_fuel G) true G names = Ok (B, names') /\
+  names_cover G names /\ names_used G names /\ NoDup names /\ ~ NoDup names'.
 Proof.
   exists ex_collide, ["S"; "SGroup"]. eexists. eexists. split; [vm_compute; reflexivity|].
-  split; [split; vm_compute; reflexivity|]. split.
+  split; [split; vm_compute; reflexivity|]. split; [apply names_usedb_spec; vm_compute; reflexivity|]. split.
   - constructor; [intros [H|[]]; discriminate|]. constructor; [intros []|constructor].
   - intros H. inversion H as [|x l Hnin Hnd]; subst. inversion Hnd as [|y l' Hnin' _]; subst.
     apply Hnin'. left. reflexivity.
 Qed.
 
-(** What the Rust code actually returns is the model's result with equally named non-terminals
-    identified; there the language has changed. *)
+(** What the old Rust code actually returned is the model's result with equally named
+    non-terminals identified; there the language has changed. *)
 Fixpoint first_index (s : string) (names : list string) (i : N) : option N :=
   match names with
   | [] => None
@@ -1385,10 +1588,31 @@ Definition merge_by_name (names : list string) (B : cfg) : cfg :=
          (prods B)).
 
 Example canon_collision_changes_language : exists B names',
-  canon (canon_fuel ex_collide) true ex_collide ["S"; "SGroup"] = Ok (B, names') /\
+  canon_old (canon_fuel ex_collide) true ex_collide ["S"; "SGroup"] = Ok (B, names') /\
   member 50 (merge_by_name names' B) [5; 6]%N = Some true /\
   emember 50 ex_collide [5; 6]%N = Some false.
 Proof. eexists. eexists. split; [vm_compute; reflexivity|]. split; vm_compute; reflexivity. Qed.
+
+(** The repaired code on the same grammar (checked against the rebuilt parol: [SGroup0]). *)
+Example canon_collision_repaired :
+  canon_named (canon_fuel ex_collide) true ex_collide ["S"; "SGroup"] = Ok
+    [ ("S", [NNt "SGroup0"]); ("SGroup0", [NTm 5]); ("SGroup0", [NNt "SGroup"; NTm 6]) ].
+Proof. vm_compute. reflexivity. Qed.
+
+(** [names_used] cannot be dropped from [canon_fresh]: a table entry that names nothing in the
+    grammar is invisible to every version of [variable_names] (it does not exist for the Rust
+    code), so a helper may be given that name.  This is a condition on the caller's table, not a
+    defect of parol. *)
+Example canon_fresh_needs_names_used : exists G names B names',
+  canon (canon_fuel G) false G names = Ok (B, names') /\
+  names_cover G names /\ NoDup names /\ ~ NoDup names'.
+Proof.
+  exists (mkEg 0 [(0%N, [[FGroup [[FT 5]; [FT 6]]]])]), ["S"; "SGroup"]. eexists. eexists.
+  split; [vm_compute; reflexivity|]. split; [split; vm_compute; reflexivity|]. split.
+  - constructor; [intros [H|[]]; discriminate|]. constructor; [intros []|constructor].
+  - intros H. inversion H as [|x l Hnin Hnd]; subst. inversion Hnd as [|y l' Hnin' _]; subst.
+    apply Hnin'. left. reflexivity.
+Qed.
 
 (** ** Non-vacuity *)
 Example ex_rewrite_hyp : exists ps' F,
@@ -1399,11 +1623,20 @@ Qed.
 
 Example ex_canon_hyp : exists B names',
   canon (canon_fuel ex_ebnf1) false ex_ebnf1 ["S"] = Ok (B, names') /\
-  names_cover ex_ebnf1 ["S"] /\ covered (mkSt (eprods ex_ebnf1) ["S"]) /\ NoDup ["S"] /\
+  names_cover ex_ebnf1 ["S"] /\ names_used ex_ebnf1 ["S"] /\ NoDup ["S"] /\
   canon_fuel ex_ebnf1 <= canon_fuel ex_ebnf1.
 Proof.
   eexists. eexists. split; [vm_compute; reflexivity|]. split; [split; vm_compute; reflexivity|].
-  split; [|split; [constructor; [intros []|constructor]|lia]].
+  split; [apply names_usedb_spec; vm_compute; reflexivity|].
+  split; [constructor; [intros []|constructor]|lia].
+Qed.
+
+Example ex_canon_old_hyp : exists B names',
+  canon_old (canon_fuel ex_ebnf1) false ex_ebnf1 ["S"] = Ok (B, names') /\
+  names_cover ex_ebnf1 ["S"] /\ covered false (mkSt (eprods ex_ebnf1) ["S"]) /\ NoDup ["S"].
+Proof.
+  eexists. eexists. split; [vm_compute; reflexivity|]. split; [split; vm_compute; reflexivity|].
+  split; [|constructor; [intros []|constructor]].
   intros i Hi. cbn [st_names length] in Hi. assert (i = 0) by lia. subst i. left. reflexivity.
 Qed.
 
@@ -1420,6 +1653,21 @@ Example ex_canon2 : canon_named (canon_fuel ex_ebnf2) true ex_ebnf2 ["E"; "T"] =
     ("TOpt", []) ].
 Proof. vm_compute. reflexivity. Qed.
 
+(** Nested undefined names (checked against the rebuilt parol):
+    [S: ( "a" | SGroup "b" ) { [ SOpt ] SList };]  with  S, SGroup, SOpt, SList = 0..3. *)
+Example ex_canon_nested_names :
+  canon_named 20 true
+    (mkEg 0 [(0%N, [[FGroup [[FT 5]; [FN 1; FT 6]]; FRep [[FOpt [[FN 2]]; FN 3]]]])])
+    ["S"; "SGroup"; "SOpt"; "SList"] = Ok
+  [ ("S", [NNt "SGroup0"; NNt "SList0"]);
+    ("SGroup0", [NTm 5]);
+    ("SGroup0", [NNt "SGroup"; NTm 6]);
+    ("SList0", [NNt "SList0"; NNt "SOpt0"; NNt "SList"]);
+    ("SList0", []);
+    ("SOpt0", [NNt "SOpt"]);
+    ("SOpt0", []) ].
+Proof. vm_compute. reflexivity. Qed.
+
 Print Assumptions canon_step_preserves.
 Print Assumptions opt_step_unreachable.
 Print Assumptions no_optional_after_extract.
@@ -1427,6 +1675,9 @@ Print Assumptions canon_preserves_forms.
 Print Assumptions canon_preserves_lang.
 Print Assumptions canon_preserves_language.
 Print Assumptions canon_fresh.
+Print Assumptions canon_old_fresh.
+Print Assumptions canon_old_preserves_lang.
 Print Assumptions canon_fresh_refuted.
 Print Assumptions canon_measure_decreases.
 Print Assumptions canon_terminates.
+Print Assumptions canon_old_terminates.
